@@ -169,6 +169,12 @@ fn positive_cfg(rng: &mut Rng) -> BuildCfg {
         let fmode = 0o100000 | [0o600, 0o640, 0o4711, 0o444][rng.usize(4)];
         let dmode = 0o040000 | [0o700, 0o750, 0o2775][rng.usize(3)];
         cfg.files.push(mk("/opt/pair/m-target", fmode, None, 33));
+        // content that ends in (or consists of) long runs of zero bytes: every byte must arrive
+        for (k, size) in [4096usize, 8192 + 10, 12_288, 4095].into_iter().enumerate() {
+            let mut z = mk(&format!("/opt/pair/zeros-{k}"), 0o100644, None, size);
+            z.content_kind = if k == 1 { "tail-zeros".into() } else { "zero".into() };
+            cfg.files.push(z);
+        }
         cfg.files.push(mk("/opt/pair/a-link", 0o120777, Some("m-target"), 0));
         cfg.files.push(mk("/opt/pair/z-link", 0o120777, Some("m-target"), 0));
         cfg.files.push(mk("/opt/pair/m-dir", dmode, None, 0));
